@@ -88,6 +88,10 @@ class UInterp(mirsym.Interp):
         s.iter_len = 0     # honest user iterator: yields exactly this many items (lying iterators are Kani's subject)
 
     # ------------------------------------------------------------------ helpers
+    def plain_count_read(s, st, p):
+        """a non-atomic read of the count word: sequentially just its current value"""
+        return st.cnt[p.root[1]]
+
     def alloc_of(s, ptr):
         ptr = unwrap_ptr(ptr)
         if isinstance(ptr, Ptr) and ptr.root[0] == 'H':
@@ -165,6 +169,8 @@ class UInterp(mirsym.Interp):
             return cont(st, Opaque('unit'))
         if n.endswith('Atomic::new'):
             return cont(st, Struct('Atomic', [args[0]]))
+        if re.search(r'Atomic::(as_ptr|get_mut)$', n) and isinstance(args[0], Ptr):
+            return cont(st, Ptr(args[0].root, args[0].path + (0,)))
         if n.endswith('Box::new'):
             st.nheap += 1
             root = ('H', f'fresh{st.nheap}')
@@ -185,6 +191,17 @@ class UInterp(mirsym.Interp):
             return cont(st, Opaque('unit'))
         if n.endswith('mem::forget'):
             return cont(st, Opaque('unit'))
+        if n.endswith('drop_in_place'):
+            p0 = args[0]
+            if isinstance(p0, Ptr) and p0.root[0] == 'H' and p0.path in ((), (1,)):
+                x = p0.root[1]
+                if has_uninit(st.mem.get(('H', x))):
+                    st.mem[('FLAG', 'uninit_drop')] = True
+                    st.trace.append(f'DESTROYS UNWRITTEN SLOTS of {x}')
+                st.trace.append(f'destroy payload of {x} in place')
+                return cont(st, Opaque('unit'))
+            ty = s.generic_arg(getattr(s, '_raw_callee', ''))
+            return s.drop_value(st, ty, p0, 0, lambda st2: cont(st2, Opaque('unit')), unw)
         if n.endswith('mem::drop'):
             ty = s.generic_arg(getattr(s, '_raw_callee', ''))
             st.nheap += 1
